@@ -53,6 +53,7 @@ class World(object):
             self.st = FileStorage(self.dir)
         self.ix = self.st.create_index(self.schema)
         self.codec = None
+        self.blocklimit = blocklimit
         if blocklimit:
             from whoosh.codec.whoosh3 import W3Codec
             self.codec = lambda: W3Codec(blocklimit=blocklimit)
